@@ -19,7 +19,7 @@ STREAMERS = {'itertools.chain': 'max', 'itertools.islice': 'first', 'itertools.z
              'itertools.chain.from_iterable': 'flatten', 'itertools.groupby': 'first', 'builtins.next': 'elem',
              'itertools.filterfalse': 'rest', 'itertools.accumulate': 'first'}
 # external calls that may receive a stream without consuming it eagerly (lazy holders) or that are the drain idiom
-NEUTRAL = {'collections.deque', 'builtins.isinstance', 'builtins.print', 'builtins.id', 'builtins.type',
+NEUTRAL = {'functools.partial', 'collections.deque', 'builtins.isinstance', 'builtins.print', 'builtins.id', 'builtins.type',
            'builtins.hasattr', 'builtins.getattr', 'builtins.callable', 'builtins.repr', 'builtins.str',
            'datapackage.Resource', 'tableschema.Schema', 'tableschema.schema.Schema', 'builtins.super'}
 
@@ -239,6 +239,10 @@ class Levels:
                     elif isinstance(n, ast.Call):
                         # propagate argument levels into repo callees
                         tg = self.res._resolve_callee(n.func, f.module, f)
+                        if self.res.external_name(n) == 'functools.partial' and n.args:
+                            # partial(g, a, b): a and b become g's first parameters when the partial is called
+                            n = ast.copy_location(ast.Call(func=n.args[0], args=list(n.args[1:]), keywords=list(n.keywords)), n)
+                            tg = self.res._resolve_callee(n.func, f.module, f)
                         for t in tg:
                             callee = None
                             drop = 0
@@ -493,8 +497,18 @@ def r13_lazy_chain(ctx, rule='R13z'):
     # get_iterator returns a nested function; outside it no iteration over res_iter
     nested = [f for f in ctx.repo.functions.values() if f.parent is gi and not isinstance(f.node, ast.Lambda)]
     rets = [n for n in own_nodes(gi.node) if isinstance(n, ast.Return)]
-    ok = len(nested) >= 1 and rets and all(isinstance(r.value, ast.Name) and r.value.id in [f.name for f in nested]
-                                           for r in rets)
+    def deferred(r, nested_names):
+        """a nested function, a lambda, or functools.partial over a function / bound method: called later, not now"""
+        v = r.value
+        if isinstance(v, ast.Name) and v.id in nested_names:
+            return True
+        if isinstance(v, ast.Lambda):
+            return True
+        if isinstance(v, ast.Call) and ctx.res.external_name(v) == 'functools.partial' and v.args and \
+                isinstance(v.args[0], (ast.Name, ast.Attribute)):
+            return True
+        return False
+    ok = bool(rets) and all(deferred(r, [f.name for f in nested]) for r in rets)
     run.check(ok, rule, gi.where, gi.qualname, 'return func', 'get_iterator does not return a deferred function')
     for f in (pr, gi):
         for n in own_nodes(f.node):
@@ -516,7 +530,7 @@ def r13_lazy_chain(ctx, rule='R13z'):
             continue
         nested = [f.name for f in ctx.repo.functions.values() if f.parent is g]
         rets = [n for n in own_nodes(g.node) if isinstance(n, ast.Return)]
-        run.check(rets and all(isinstance(r.value, ast.Name) and r.value.id in nested for r in rets), rule, g.where,
+        run.check(bool(rets) and all(deferred(r, nested) for r in rets), rule, g.where,
                   g.qualname, 'return func', 'overriding get_iterator does not return a deferred function')
         loops = [n for n in own_nodes(g.node) if isinstance(n, (ast.For, ast.While))]
         run.check(not loops, rule, g.where, g.qualname, 'no loop outside the deferred function',
